@@ -14,6 +14,7 @@
 package io
 
 import (
+	"io"
 	"strconv"
 
 	"github.com/hprose/hprose-golang/v3/internal/convert"
@@ -113,9 +114,17 @@ func (dec *Decoder) ReadInt() (value int) {
 // count comes from the peer and must not be trusted with an allocation.
 func (dec *Decoder) ReadCount() (count int) {
 	count = dec.ReadInt()
-	if count < 0 || (dec.reader == nil && count > dec.tail-dec.head) {
+	switch {
+	case count < 0:
 		if dec.Error == nil {
 			dec.Error = DecodeError("hprose/io: invalid count or length " + strconv.Itoa(count))
+		}
+		return 0
+	case dec.reader == nil && count > dec.tail-dec.head:
+		// the input ends before what is announced: the same outcome as
+		// running out of data while reading the elements from a reader
+		if dec.Error == nil {
+			dec.Error = io.ErrUnexpectedEOF
 		}
 		return 0
 	}
